@@ -219,6 +219,9 @@ def templates(rng):
     MA = _dc(m, "MutA", {"b": Optional["MutB"]}, {"b": None})
     MB = _dc(m, "MutB", {"a": Optional[MA], "n": Optional[SR]}, {"a": None, "n": None})
     out.append(("mutually recursive dataclasses", MA, [MA(MB(MA(), SR(1)))], {"self-reference"}))
+    # dataclass(slots=True): class attributes are slot descriptors, not defaults
+    SL = _dc(m, "Slotted", {"when": datetime.date, "items": List[int], "n": int, "s": str}, {"items": dataclasses.field(default_factory=list), "n": 3, "s": "q"}, slots=True)
+    out.append(("dataclass with slots", SL, [SL(datetime.date(2024, 2, 29)), SL(datetime.date(2024, 2, 29), [1], 2, "z")], {"slots"}))
     import re
 
     PT = _dc(m, "Pat", {"p": re.Pattern})
